@@ -114,7 +114,19 @@ def DictTab.toDict (t : DictTab) : PenDict := fun a => (t[PenAttr.all.idxOf a]?)
 def tabulate (d : PenDict) : DictTab := (PenAttr.all.map d).toArray
 def DictTab.empty : DictTab := tabulate PenDict.empty
 
-def representable (a : PenAttr) (v : Int) : Bool := decide (a.Representable v)
+/-- The values the header documents for an attribute (Props/C19 `documented_values_representable` proves them
+    representable in the extracted layout; the run-time oracle insists on them independently of the layout, so a
+    narrowed bit-field is reported with a concrete input). -/
+def documented (a : PenAttr) (v : Int) : Bool :=
+  match a with
+  | .fg | .bg => decide (COLOUR_DEFAULT ≤ v ∧ v ≤ 255)
+  | .under => decide (-1 ≤ v ∧ v < TICKIT_N_PEN_UNDERS)
+  | .altfont => decide (-1 ≤ v ∧ v ≤ 10)
+  | .sizepos => decide (TICKIT_PEN_SIZEPOS_NORMAL ≤ v ∧ v ≤ TICKIT_PEN_SIZEPOS_SUBSCRIPT)
+  | _ => decide (v = 0 ∨ v = 1)
+
+/-- Values for which the property demands an exact read-back. -/
+def representable (a : PenAttr) (v : Int) : Bool := decide (a.Representable v) || documented a v
 
 /-- What the implementation's dump says attribute `a` reads as through its own getter. -/
 def typedRead (po : PenObs) (a : PenAttr) : PenVal :=
